@@ -187,5 +187,71 @@ def expand (s : RSys) : EOp → List AOp
         if rel.isEmpty ∧ s.broken t elim = false then [.sync t elim stay rel keep]
         else [.sync t elim stay rel keep, .report t rel [] ch]
 
+/-! ### The forward-only domain (C19 on the asynchronous system)
+
+    As `RSys.ok` restricts `RSys.okAny`: a `SetStatus` never names `Pending` unless the competition
+    is still pending (reading I13 of DESIGN §5: the phases only move forward).  Everything else is
+    as in `ok`: reports may arrive at any time, in parts, after the table was broken or synced
+    again. -/
+
+/-- Validity of an operation in a state, the status only moving forward. -/
+def okFwd (s : ASys) : AOp → Prop
+  | .status st ch =>
+      (st ≠ .pending ∨ s.r.status = .pending) ∧ (s.r.setStatus st ch).badChoice = false
+  | op => s.ok op
+
+instance (s : ASys) (op : AOp) : Decidable (s.okFwd op) := by
+  cases op <;> simp only [okFwd] <;> infer_instance
+
+theorem ok_of_okFwd {s : ASys} {op : AOp} (h : s.okFwd op) : s.ok op := by
+  cases op with
+  | status st ch => exact h.2
+  | add ps ch => exact h
+  | sync t elim stay rel keep => exact h
+  | report t ps rest ch => exact h
+
+/-- States reachable from a fresh regulator with ANY setting `1 ≤ max`, ANY `min`, by valid
+    operations in which the status only moves forward (`okFwd`): the domain of C19 on the
+    asynchronous system. -/
+inductive AReachableFwd : ASys → Prop
+  | init (max min : Nat) (h1 : 1 ≤ max) : AReachableFwd (init max min)
+  | step {s : ASys} (op : AOp) : AReachableFwd s → s.okFwd op → AReachableFwd (s.step op)
+
+theorem AReachableFwd.any {s : ASys} (h : AReachableFwd s) : AReachable s := by
+  induction h with
+  | init max min h1 => exact .init max min h1
+  | step op _ hok ih => exact .step op ih (ok_of_okFwd hok)
+
+/-- every operation of the script is valid, forward-only, when its turn comes -/
+def allOkFwd : ASys → List AOp → Prop
+  | _, [] => True
+  | s, op :: ops => s.okFwd op ∧ allOkFwd (s.step op) ops
+
+instance decAllOkFwd : (s : ASys) → (ops : List AOp) → Decidable (allOkFwd s ops)
+  | _, [] => isTrue trivial
+  | s, op :: ops =>
+    match (inferInstance : Decidable (s.okFwd op)), decAllOkFwd (s.step op) ops with
+    | isTrue h1, isTrue h2 => isTrue ⟨h1, h2⟩
+    | isFalse h1, _ => isFalse fun h => h1 h.1
+    | _, isFalse h2 => isFalse fun h => h2 h.2
+
+theorem AReachableFwd.run {s : ASys} (h : AReachableFwd s) :
+    ∀ (ops : List AOp), allOkFwd s ops → AReachableFwd (s.run ops) := by
+  intro ops
+  induction ops generalizing s with
+  | nil => intro _; exact h
+  | cons op ops ih => intro hok; exact ih (AReachableFwd.step op h hok.1) hok.2
+
+/-- the membership sheet at the moment the operation's callbacks start (for a sync: after the
+    eliminations, arrivals and departures at the syncing table; a sync itself makes no callback) -/
+def baseMembers (s : ASys) : AOp → List (Nat × List Nat)
+  | .sync t elim _ _ keep =>
+      match s.env.membersOf t with
+      | none => s.env.members
+      | some _ =>
+        if s.broken t elim then s.env.members.filter (fun e => e.1 != t)
+        else s.env.members.map fun e => if e.1 = t then (e.1, keep) else e
+  | _ => s.env.members
+
 end ASys
 end Pokerface
